@@ -829,11 +829,15 @@ pub fn layout(t: &mut Tape, toks: &[String], comments: bool) -> String {
                 }
             }
             if comments && t.chance(18) {
-                match t.below(5) {
+                match t.below(9) {
                     | 0 => s.push_str("-- line comment\n"),
                     | 1 => s.push_str("/- block -/ "),
                     | 2 => s.push_str("/- nested /- inner -/ outer -/\n"),
                     | 3 => s.push_str("--| text block\n"),
+                    | 4 => s.push_str("-- see [note] ) } end\n"),
+                    | 5 => s.push_str("/- keep [as written] ( { -/ "),
+                    | 6 => s.push_str("--\n"),
+                    | 7 => s.push_str("--| doc ] text\n--|\n"),
                     | _ => s.push_str("/- multi\n   line -/ "),
                 }
             }
